@@ -3,16 +3,19 @@ module verifharness
 go 1.20
 
 require (
+	cloud.google.com/go/kms v1.15.7
 	github.com/google/gce-tcb-verifier v0.2.3-0.20240907002716-116e9ad95165
 	github.com/google/gce-tcb-verifier/gcetcbendorsement v0.0.0
 	github.com/google/go-sev-guest v0.13.0
 	github.com/google/go-tdx-guest v0.3.2-0.20240902060211-1f7f7b9b42b9
 	github.com/google/go-tpm-tools v0.4.4
 	github.com/google/uuid v1.6.0
+	google.golang.org/grpc v1.63.2
 	google.golang.org/protobuf v1.34.2
 )
 
 require (
+	cloud.google.com/go/iam v1.1.6 // indirect
 	github.com/cyphar/filepath-securejoin v0.2.5 // indirect
 	github.com/google/go-configfs-tsm v0.3.2 // indirect
 	github.com/google/logger v1.1.1 // indirect
@@ -22,11 +25,13 @@ require (
 	go.uber.org/multierr v1.11.0 // indirect
 	golang.org/x/crypto v0.21.0 // indirect
 	golang.org/x/exp v0.0.0-20240409090435-93d18d7e34b8 // indirect
+	golang.org/x/net v0.23.0 // indirect
 	golang.org/x/sys v0.19.0 // indirect
 	golang.org/x/term v0.18.0 // indirect
 	golang.org/x/text v0.14.0 // indirect
+	google.golang.org/genproto v0.0.0-20240227224415-6ceb2ff114de // indirect
+	google.golang.org/genproto/googleapis/api v0.0.0-20240227224415-6ceb2ff114de // indirect
 	google.golang.org/genproto/googleapis/rpc v0.0.0-20240227224415-6ceb2ff114de // indirect
-	google.golang.org/grpc v1.63.2 // indirect
 )
 
 replace github.com/google/gce-tcb-verifier => /repo
